@@ -139,7 +139,8 @@ void DocumentBuilder::decl_progress(bool hasGuard)
  */
 void DocumentBuilder::proc_begin(const char* name, const bool isTA, const string& type, const string& mode)
 {
-    currentTemplate = document.find_dynamic_template(name);
+    // only a timed automaton can be the definition of a dynamic template: a chart of that name is a duplicate
+    currentTemplate = isTA ? document.find_dynamic_template(name) : nullptr;
     if (currentTemplate) {
         /* check if parameters match */
         if (currentTemplate->parameters.get_size() != params.get_size()) {
